@@ -110,3 +110,19 @@ check("C14", "model_checking",
       TRUST + " Depth-bounded (reported as a cap); TICK uses the default timer order.",
       "explicit-state BFS over lifecycle operation sequences with specification-automaton oracle and resource census",
       "E1-explicit-state + VLoop + E3-thread-scheduler", "DESIGN.md section 4 C14")
+
+check("C12", "model_checking",
+      "At EVERY reachable canonical state (= every crash point) of the TREE universal machines and of an actor machine, on both engines: "
+      "restore(snapshot) is canonically equal, re-snapshot reproduces it, and for every event the original, the restored and the "
+      "twice-restored interpreter step identically (one-step bisimulation over the closure); all single-point corruptions of snapshot texts "
+      "(every prefix, deleted key, wrong JSON type, unknown state id) are enumerated.",
+      TRUST, "explicit-state BFS with one-step bisimulation at every state + exhaustive single-point corruption enumeration",
+      "E1-explicit-state + VLoop + E3-thread-scheduler", "DESIGN.md section 4 C12")
+check("C15", "model_checking",
+      "BFS over sequences of actor operations (spawn by id/systemId/anonymous/spawn_ action, sendTo by every addressing form, forwardTo, "
+      "delayed send / id reuse / cancel / self-re-arming heartbeat, stopChild, grandchild, escalate, tick, stop) on both engines, joint state = "
+      "(implementation, dictionary reference model, pending-timer census); after every step children map, registry, per-actor received "
+      "sequence numbers, acknowledgements, warnings and liveness of removed actors are compared.",
+      TRUST + " Depth-bounded (reported as a cap).",
+      "explicit-state BFS over operation sequences against a dictionary reference model", "E1-explicit-state + VLoop + E3-thread-scheduler",
+      "DESIGN.md section 4 C15")
